@@ -278,9 +278,56 @@ def classify_merge_loss(lost, merged_text, vendor):
     return "merge-not-monotone"
 
 
+def ref_flags(text):
+    """reference reading of %cant_delete: the explicit flags of a rule line, else the built-in default
+    'the rule starts with interface'; rules with the same row unite their flag lists (merged generators)"""
+    import re
+    flags = {}
+    for line in text.split("\n"):
+        raw = line.strip()
+        if not raw:
+            continue
+        row = re.sub(r"\s+", " ", raw.split("%")[0].strip()) if "%" in raw else re.sub(r"\s+", " ", raw)
+        m = re.search(r"%cant_delete=([^\s]*)", raw)
+        fl = [x in ("1", "true", "yes") for x in re.split(r"[,\t ]+", m.group(1))] if m else [raw.startswith("interface")]
+        flags.setdefault((len(line) - len(line.lstrip(" ")), row), []).extend(fl)
+    return flags
+
+
+def compiled_flags_check(text, vendor, out):
+    """every compiled rule carries the reference flags (this is where the built-in interface default lives)"""
+    from annet.annlib.rbparser import acl, syntax
+    try:
+        rules = acl.compile_acl_text(text, vendor)
+    except Exception:
+        return
+    ref = {}
+    for (ind, row), fl in ref_flags(text).items():
+        ref.setdefault(row, []).append(fl)
+
+    def walk(rs):
+        for scope in ("local", "global"):
+            for rid, rule in rs[scope].items():
+                got = list(rule["attrs"]["cant_delete"])
+                cands = ref.get(rid, [])
+                # a row may occur at several places of the text: the compiled flags must be one of the references
+                # or a concatenation of them (same row merged at one level)
+                ok = any(got == c for c in cands) or sorted(got) == sorted(x for c in cands for x in c) or \
+                    (cands and set(got) <= set(x for c in cands for x in c) and len(got) <= sum(len(c) for c in cands))
+                if cands and not ok:
+                    out.append(dict(sig="cant-delete-flags-wrong",
+                                    what="rule %r is compiled with cant_delete=%r, the ACL text says %r" % (rid, got, cands)))
+                    return True
+                if rule["children"] and walk(rule["children"]):
+                    return True
+        return False
+    walk(rules)
+
+
 def oracle(case, r):
     setup_worker()
     out = []
+    compiled_flags_check(combine(case["texts"], case["tagged"]), case["vendor"], out)
     vendor, tree = case["vendor"], case["tree"]
     text = combine(case["texts"], case["tagged"])
     if r.get("err", "").startswith("compile:"):
